@@ -219,6 +219,11 @@ Theorem int_of_a_digit_string_is_its_decimal_value :
 Proof. intros s H NE. split; [now apply py_int_digits|now apply py_int_negative]. Qed.
 Print Assumptions int_of_a_digit_string_is_its_decimal_value.
 
+Theorem int_of_the_decimal_text_of_a_number_is_that_number :
+  forall z, py_int (z_to_str z) = Some z.
+Proof. exact py_int_of_decimal_text. Qed.
+Print Assumptions int_of_the_decimal_text_of_a_number_is_that_number.
+
 Theorem getters_keep_values_that_already_have_the_type :
   forall d name,
   (forall b, ud_get name d = Some (UBool b) -> getbool d name = GKeep (UBool b)) /\
